@@ -138,6 +138,32 @@ def annassign_variants(src, qual, per_func):
     return out
 
 
+def insert_variants(src, qual, per_func):
+    """Insert a statement without effect: first in the body, and before the last top-level statement."""
+    out = []
+    for where in ("first", "before-last", "log"):
+        t2 = ast.parse(src)
+        f2 = _func_by_qualname(t2, qual)
+        if f2 is None:
+            return out
+        body = f2.body
+        i0 = 1 if body and isinstance(body[0], ast.Expr) and isinstance(body[0].value, ast.Constant) and isinstance(body[0].value.value, str) else 0
+        if where == "first":
+            stmt = ast.parse("assert True").body[0]
+            body.insert(i0, stmt)
+        elif where == "before-last":
+            if len(body) - i0 < 2:
+                continue
+            stmt = ast.parse("assert True").body[0]
+            body.insert(len(body) - 1, stmt)
+        else:
+            stmt = ast.parse("__debug__ and None").body[0]
+            body.insert(i0, stmt)
+        ast.fix_missing_locations(t2)
+        out.append((f"insert no-op ({where}) in {qual}", ast.unparse(t2)))
+    return out[:per_func]
+
+
 def one_property(args):
     prop, per_func, kind = args
     from sa.__main__ import run_check
@@ -160,6 +186,8 @@ def one_property(args):
             vs += rename_variants(src, qual, per_func)
         if kind in ("annassign", "all"):
             vs += annassign_variants(src, qual, min(per_func, 2))
+        if kind in ("insert", "all"):
+            vs += insert_variants(src, qual, per_func)
         for label, newsrc in vs:
             results["variants"] += 1
             try:
